@@ -250,7 +250,20 @@ def run(ctx):
                 await send({"type": "http.response.zerocopysend", "file": fd, "offset": 0, "count": 5})
             finally:
                 _os.close(fd)
-        for name, iface, app, zc in (("raw WSGI app restarting the response (exc_info)", "wsgi", wsgi_restart, False),
+        def wsgi_dict_user(environ, start_response):
+            # PEP 3333: environ is a builtin dict - an application may copy it, hand it to a sub-application ...
+            env2 = environ.copy()
+            start_response("200 OK", [("Content-Type", "text/plain"), ("X-Is-Dict", str(type(environ) is dict))])
+            return [env2["REQUEST_METHOD"].encode(), b" ", env2.get("PATH_INFO", "").encode("latin-1")]
+
+        async def asgi_dict_user(scope, receive, send):
+            sc2 = dict(scope)
+            sc2.setdefault("state", {})
+            await send({"type": "http.response.start", "status": 200, "headers": [(b"x-is-dict", str(type(scope) is dict).encode())]})
+            await send({"type": "http.response.body", "body": sc2["method"].encode() + b" " + scope.copy()["path"].encode()})
+        for name, iface, app, zc in (("raw WSGI app that uses environ as the dict it is (copy)", "wsgi", wsgi_dict_user, False),
+                                     ("raw ASGI app that uses scope as the dict it is (copy)", "asgi", asgi_dict_user, False),
+                                     ("raw WSGI app restarting the response (exc_info)", "wsgi", wsgi_restart, False),
                                      ("raw ASGI app: file in two zero-copy messages", "asgi", asgi_two_zerocopy, True),
                                      ("raw ASGI app: zero-copy with offsets", "asgi", asgi_offset_zerocopy, True)):
             bare = observe(iface, app, None, zc)
